@@ -322,5 +322,15 @@ def r6_all_parameters_from_link(chk: Check) -> None:
         chk.undecided("C18.R6", fn, "membership test against the overrides", "not found", fn.loc())
 
 
+def r7_memo(chk: Check) -> None:
+    from . import shared
+
+    P = chk.project
+    mods = ('specs/openapi/checks.py', 'engine/recorder.py', 'checks.py', 'generation/overrides.py')
+    fns = [f for m in mods if m in P.by_relpath for f in P.module(m).functions.values() if not isinstance(f.node, ast.Lambda)]
+    shared.memo_key_rule(chk, "C18.R7", fns, {("_set_cache_entry", "data"): "a setter: the value to store is handed in by get(), which computed it for this key", ("_get_body_strategy", "operation"): "a parameter belongs to exactly one operation (stated next to the cache)"},
+                         "MEMO-KEY(anchor modules of this property): lifecycle verdicts depend on the case, its history and the response: a cache keyed by less judges another case", floor=0)
+
+
 def rules(tier: str) -> list:  # type: ignore[type-arg]
-    return [r1_own_response, r2_prefix_arguments, r3_accusation_guards, r4_history_lookups, r5_identifier_values_compared_exactly, r6_all_parameters_from_link]
+    return [r1_own_response, r2_prefix_arguments, r3_accusation_guards, r4_history_lookups, r5_identifier_values_compared_exactly, r6_all_parameters_from_link, r7_memo]
